@@ -2,8 +2,6 @@
 package c13
 
 import (
-	"runtime"
-	"os"
 	"bytes"
 	"encoding/binary"
 	"errors"
@@ -11,14 +9,16 @@ import (
 	"math/rand/v2"
 	"net"
 	"net/netip"
+	"os"
+	"runtime"
 	"strings"
 	"sync"
 	"time"
 
 	"github.com/fxamacker/cbor/v2"
 
-	mycoria "github.com/mycoria/mycoria"
 	"github.com/mycoria/crop"
+	mycoria "github.com/mycoria/mycoria"
 	"github.com/mycoria/mycoria/config"
 	"github.com/mycoria/mycoria/frame"
 	"github.com/mycoria/mycoria/m"
@@ -51,12 +51,18 @@ func init() {
 // ---------- hostile frame generator (shared by the sync and the async part)
 
 type attacker struct {
-	r     *rand.Rand
-	inst  *env.Instance // the malicious router's real state (keys, session with the victim)
-	vIP   netip.Addr    // victim address
-	known []netip.Addr  // other addresses the victim knows
+	r       *rand.Rand
+	inst    *env.Instance // the malicious router's real state (keys, session with the victim)
+	vIP     netip.Addr    // victim address
+	known   []netip.Addr  // other addresses the victim knows
 	keyless int
-	label []m.SwitchLabel
+	ground  []groundID
+	label   []m.SwitchLabel
+}
+
+type groundID struct {
+	ip  netip.Addr
+	key []byte
 }
 
 type hostile struct {
@@ -181,6 +187,41 @@ func (a *attacker) ping() (hostile, bool) {
 			msg = []byte{1}
 		}
 		op += "+truncated"
+	}
+	if r.IntN(12) == 0 {
+		// first contact from an address that really is the digest of odd key material (oversized, undersized):
+		// nobody can sign for it, the header is all the victim gets
+		if len(a.ground) < 6 {
+			for tries := 0; tries < 5000; tries++ {
+				key := core.RandBytes(r, []int{33, 40, 64, 31, 5, 100}[len(a.ground)%6])
+				ip, err := m.DigestToAddress(crop.BLAKE3, crop.KeyPairTypeEd25519, key, 0)
+				if err == nil && ip.As16()[0] == 0xfd && ip.As16()[1]&0x80 == 0 {
+					a.ground = append(a.ground, groundID{ip, key})
+					break
+				}
+			}
+		}
+		if len(a.ground) > 0 {
+			g := a.ground[r.IntN(len(a.ground))]
+			gh := router.PingHeader{PingID: r.Uint64() | 1, PingType: []string{"pong", "hello", "announce"}[r.IntN(3)], AddrHash: crop.BLAKE3, KeyType: crop.KeyPairTypeEd25519, PublicKey: g.key}
+			if ghd, err := cbor.Marshal(&gh); err == nil && len(ghd) <= 255 {
+				gmsg := append(append([]byte{1, byte(len(ghd))}, ghd...), a.randCBOR()...)
+				gmt := []frame.MessageType{frame.RouterPing, frame.RouterHopPing}[r.IntN(2)]
+				gdst := a.vIP
+				if gmt == frame.RouterHopPing {
+					gdst = m.RouterAddress
+				}
+				if f, err := a.inst.BuilderV.NewFrameV1(g.ip, gdst, gmt, nil, gmsg, nil); err == nil {
+					f.SetSequenceTime(time.Now().Round(time.Millisecond))
+					copy(f.AuthData(), core.RandBytes(r, 64))
+					f.SetTTL(20)
+					d, _ := f.FrameDataWithMargins(0, 0)
+					out := hostile{data: append([]byte(nil), d...), kind: fmt.Sprintf("ping-ground-identity-key%d", len(g.key)), mtype: byte(gmt), ptype: gh.PingType}
+					f.ReturnToPool()
+					return out, true
+				}
+			}
+		}
 	}
 	mt := []frame.MessageType{frame.RouterPing, frame.RouterPing, frame.RouterCtrl, frame.RouterHopPing, frame.RouterHopPingDeprecated}[r.IntN(5)]
 	dst := a.vIP
